@@ -66,6 +66,21 @@ def run(ctx):
                            "binary": c01.run_binary(w2src, ["-O0"], inp2, os.path.join(common.BUILD, "c08", "w2"))}, found_input=True)
         else:
             ctx.log("witness 2: the finding no longer reproduces")
+    w3 = {"outs": [], "hooks": ["h0", "h1", "h2"], "finish_codes": [], "yield_codes": [],
+          "body": [("match", ("lit", b"q")), ("gcase", [(2, [("lit", b"cak")], [("hook", "h0")]), (2, [("lit", b"bcc")], [("hook", "h1")]),
+                                                          (None, [("re", ("plus", ("set", [(97, 100)], False)))], [("hook", "h2"), ("match", ("lit", b";"))])]), ("match", ("lit", b"\n"))]}
+    w3src = gen.pr_prog(w3)
+    c3 = c01.convert(w3, w3src, [], "-O0")
+    if c3["verdict"] == "ok":
+        res3 = refsem.run_refk([refsem.task_ref(c3["epr"], c3["em"], c3["I"], False)], timeout=300)[0]
+        if not res3.startswith("ok"):
+            inp3 = list(b"qbccd;\n")
+            ctx.violation("case:greedy-action-only-clause-runs-early:witness",
+                          "an action-only clause of a greedy case runs as soon as its pattern is complete although the input goes on to a longer match of another pattern: on qbccd;\\n both h1 (clause bcc, at the second c) and h2 (clause /[a-d]+/, which matches bccd) are called",
+                          {"program": w3src, "flags": ["-O0"], "input": inp3, "certificate": res3[:400],
+                           "binary": c01.run_binary(w3src, ["-O0"], inp3, os.path.join(common.BUILD, "c08", "w3"))}, found_input=True)
+        else:
+            ctx.log("witness 3: the finding no longer reproduces")
     n = 450 if quick else 2400
     levels = ["-O0", "-O3"] if quick else ["-O0", "-O1", "-O2", "-O3"]
     shapes = collections.Counter()
